@@ -181,4 +181,17 @@ def handcrafted():
         out.append(('ts sel len=%d' % ln, hdr(44) + bytes([0, 0]) + (len(ts) + 4).to_bytes(2, 'big') + ts))
         dl = bytes([3, 4]) + ln.to_bytes(2, 'big') + bytes(8)
         out.append(('delete n=%d' % ln, hdr(42) + bytes([0, 0]) + (len(dl) + 4).to_bytes(2, 'big') + dl))
+    # transform attributes in the variable-length (TLV, AF bit clear) format: every type / length / value size, before and after Key Length
+    for atype in (1, 14, 15, 0x7fff):
+        for alen in (0, 1, 2, 3, 4, 5, 8, 0xFFFF):
+            for vlen in (0, 1, 4, 8):
+                for klpos in ('none', 'after', 'before'):
+                    tlv = atype.to_bytes(2, 'big') + alen.to_bytes(2, 'big') + bytes(range(1, vlen + 1))
+                    kl = bytes([0x80, 14, 0, 128])
+                    attrs = {'none': tlv, 'after': tlv + kl, 'before': kl + tlv}[klpos]
+                    tr = bytes([0, 0]) + (8 + len(attrs)).to_bytes(2, 'big') + bytes([1, 0, 0, 12]) + attrs
+                    prop = bytes([0, 0]) + (8 + len(tr)).to_bytes(2, 'big') + bytes([1, 1, 0, 1]) + tr
+                    sa = prop
+                    out.append(('attr-tlv type=%d len=%d value=%d kl=%s' % (atype, alen, vlen, klpos),
+                                hdr(33) + bytes([0, 0]) + (len(sa) + 4).to_bytes(2, 'big') + sa))
     return out
